@@ -115,16 +115,20 @@ class Ctx:
             raise PathAbort()
         self._add(cond)
 
-    def check(self, *conds):
+    def check(self, *conds, timeout_ms=None):
         """Is pc /\\ conds satisfiable?  returns 'sat' / 'unsat' / 'unknown'."""
         self.nq += 1
         t = time.perf_counter()
+        if timeout_ms is not None:
+            self.solver.set("timeout", int(timeout_ms))
         self.solver.push()
         for c in conds:
             self.solver.add(c)
         r = self.solver.check()
         self._last_model = self.solver.model() if r == z3.sat else None
         self.solver.pop()
+        if timeout_ms is not None:
+            self.solver.set("timeout", self.timeout_ms)
         self.solver_s += time.perf_counter() - t
         if r == z3.sat:
             self.n_sat += 1
@@ -166,6 +170,24 @@ class Ctx:
                 d = False
             else:
                 raise PathAbort()
+            self.prefix.append(d)
+        self.pos += 1
+        self._add(cond if d else z3.Not(cond))
+        return d
+
+    def branch_blind(self, cond):
+        """Fork on ``cond`` WITHOUT asking the solver which directions are
+        feasible (both are followed).  Sound: an infeasible path can only add
+        obligations; a refutation is still a model of the whole path condition."""
+        if self.pos < len(self.prefix):
+            d = self.prefix[self.pos]
+            if not isinstance(d, bool):
+                raise ReplayDivergence("bool")
+        else:
+            self.n_decided += 1
+            self.n_forks += 1
+            self.work.append(self.prefix[: self.pos] + [False])
+            d = True
             self.prefix.append(d)
         self.pos += 1
         self._add(cond if d else z3.Not(cond))
@@ -254,6 +276,20 @@ class SBool:
 
     def __repr__(self):
         return f"SBool({self.e})"
+
+
+class SBlindBool(SBool):
+    """a symbolic bool whose truth value is forked blindly (see branch_blind)"""
+
+    __slots__ = ()
+
+    def __bool__(self):
+        e = self.e
+        if z3.is_true(e):
+            return True
+        if z3.is_false(e):
+            return False
+        return CTX.branch_blind(e)
 
 
 def _lift_bool(o):
